@@ -7,7 +7,7 @@ use flac_codec::encode::{FlacStreamWriter, Options};
 use serde_json::{json, Value};
 use vph::refdec;
 
-pub const RULE: &str = "every case of the C01 space (a)-(f),(h),(i) is encoded by the real crate and the finished bytes are judged by the independent strict validator (sync, reserved bits/codes, coded numbers, header/STREAMINFO consistency, CRC-8/16, zero padding, wasted-bit/predictor/partition/residual rules with UNTRUNCATED prediction, frame numbering, block sizes, sample count, MD5, frame-size extrema, no trailing bytes) and the independent decode must equal the input PCM; plus FlacStreamWriter output for all frame sequences of 1..2 frames × all PCM over Σ up to 3 PCM frames × channels 1..3 × subset depths with parameters changing between frames; distinct outcomes = (set, verdict, subframe kinds, channel code, partition orders)";
+pub const RULE: &str = "every case of the C01 space (a)-(i) (incl. all four writer front-ends and both byte orders) is encoded by the real crate and the finished bytes are judged by the independent strict validator (sync, reserved bits/codes, coded numbers, header/STREAMINFO consistency, CRC-8/16, zero padding, wasted-bit/predictor/partition/residual rules with UNTRUNCATED prediction, frame numbering, block sizes, sample count, MD5, frame-size extrema, no trailing bytes) and the independent decode must equal the input PCM; plus FlacStreamWriter output for all frame sequences of 1..2 frames × all PCM over Σ up to 3 PCM frames × channels 1..3 × subset depths with parameters changing between frames, and every FlacStreamWriter call history of 3 valid frames with ≤2 rejected calls (9 kinds: unsupported depth/rate, too many samples, odd sample count, empty slice, bad channel count) inserted at every position; distinct outcomes = (set, verdict, subframe kinds, channel code, partition orders)";
 pub const ASSUMPTIONS: &[&str] = &["refdec is bound to reality by decoding the libFLAC-made fixtures with matching MD5 and by inverting the independently written stream builder (selftest)", "same input bounds as C01"];
 pub fn bounds(quick: bool) -> Value {
     super::c01::bounds(quick)
@@ -92,7 +92,7 @@ fn judge_raw(bytes: &[u8], frames: &[(u32, u8, u32, Vec<i32>)]) -> Option<(Strin
 }
 
 pub fn run(ctx: &Ctx, acc: &mut Acc) {
-    enumerate(ctx, "abcdefhi", &mut |c: &EncCase| {
+    enumerate(ctx, "abcdefghi", &mut |c: &EncCase| {
         acc.states += 1;
         acc.executions += 1;
         acc.transitions += 2;
@@ -109,6 +109,7 @@ pub fn run(ctx: &Ctx, acc: &mut Acc) {
             acc.violation(sig, what, case_json("enc-validate", c.w, &c.opt, &c.sig, c.pcm));
         }
     });
+    run_rejection_histories(ctx, acc);
     // raw frame streams
     let menu: Vec<(u32, u8, u32)> = vec![(44100, 1, 16), (8000, 2, 8), (12345, 3, 24), (100010, 1, 12), (96000, 2, 32), (22050, 2, 20)];
     for (i, &(rate, ch, bps)) in menu.iter().enumerate() {
@@ -139,8 +140,92 @@ pub fn run(ctx: &Ctx, acc: &mut Acc) {
     }
 }
 
+/// FlacStreamWriter call histories that contain REJECTED calls: whatever is refused writes nothing and must not
+/// disturb the numbering of the frames that are written ("frames are numbered consecutively").
+fn rejected_calls() -> Vec<(&'static str, u32, u8, u32, usize)> {
+    // (name, rate, channels, bits, number of samples)
+    vec![("bps-17", 44100, 1, 17, 16), ("bps-0", 44100, 1, 0, 16), ("rate-700001", 700001, 1, 16, 16), ("rate-2^20", 1 << 20, 1, 16, 16), ("too-many-samples", 44100, 1, 16, 65536), ("odd-sample-count", 44100, 2, 16, 15), ("empty", 44100, 1, 16, 0), ("channels-9", 44100, 9, 16, 18), ("channels-0", 44100, 0, 16, 0)]
+}
+
+fn history_with_rejections(valid: &[(u32, u8, u32, Vec<i32>)], inserts: &[(usize, usize)]) -> Result<(Vec<u8>, usize), String> {
+    let rej = rejected_calls();
+    match guarded(|| -> Result<(Vec<u8>, usize), String> {
+        let mut out = Vec::new();
+        let mut accepted_rejects = 0;
+        {
+            let mut w = FlacStreamWriter::new(&mut out, Options::default());
+            for pos in 0..=valid.len() {
+                for (at, which) in inserts {
+                    if *at == pos {
+                        let (_, rate, ch, bps, n) = rej[*which];
+                        let junk = vec![0i32; n];
+                        if w.write(rate, ch, bps, &junk).is_ok() {
+                            accepted_rejects += 1;
+                        }
+                    }
+                }
+                if let Some((rate, ch, bps, pcm)) = valid.get(pos) {
+                    w.write(*rate, *ch, *bps, pcm).map_err(|e| format!("err:{e:?}"))?;
+                }
+            }
+        }
+        Ok((out, accepted_rejects))
+    }) {
+        Ok(r) => r,
+        Err(p) => Err(format!("panic:{p}")),
+    }
+}
+
+fn run_rejection_histories(ctx: &Ctx, acc: &mut Acc) {
+    let valid: Vec<(u32, u8, u32, Vec<i32>)> = vec![(44100, 1, 16, crate::corpus::ident_pcm(1, 16, 16)), (8000, 2, 8, crate::corpus::ident_pcm(2, 8, 17)), (96000, 1, 24, crate::corpus::ident_pcm(1, 24, 16))];
+    let nrej = rejected_calls().len();
+    let mut histories: Vec<Vec<(usize, usize)>> = Vec::new();
+    for at in 0..=valid.len() {
+        for r in 0..nrej {
+            histories.push(vec![(at, r)]);
+            for at2 in at..=valid.len() {
+                for r2 in 0..nrej {
+                    histories.push(vec![(at, r), (at2, r2)]);
+                }
+            }
+        }
+    }
+    for h in histories {
+        if !ctx.mine() {
+            continue;
+        }
+        acc.states += 1;
+        acc.executions += 1;
+        acc.transitions += valid.len() as u64 + h.len() as u64;
+        let names: Vec<String> = h.iter().map(|(at, r)| format!("{}@{at}", rejected_calls()[*r].0)).collect();
+        let v = match history_with_rejections(&valid, &h) {
+            Err(e) => Some((format!("C02|raw-history|{}", err_class(&e)), format!("FlacStreamWriter history with rejected calls {names:?}: {e}"))),
+            Ok((bytes, accepted)) => {
+                if accepted > 0 {
+                    None // the call was not refused after all: that frame is C16's business (must decode from its own header)
+                } else {
+                    judge_raw(&bytes, &valid).map(|(sig, what)| (sig.replace("C02|raw-", "C02|raw-history-"), format!("after rejected calls {names:?}: {what}")))
+                }
+            }
+        };
+        acc.outcome(format!("raw-history:{}", if v.is_none() { "ok" } else { "bad" }));
+        if let Some((sig, what)) = v {
+            acc.violation(sig, what, json!({"kind":"raw-history","inserts":h}));
+        }
+    }
+}
+
 pub fn replay(v: &Value) -> Option<(bool, String)> {
     match v["kind"].as_str()? {
+        "raw-history" => {
+            let valid: Vec<(u32, u8, u32, Vec<i32>)> = vec![(44100, 1, 16, crate::corpus::ident_pcm(1, 16, 16)), (8000, 2, 8, crate::corpus::ident_pcm(2, 8, 17)), (96000, 1, 24, crate::corpus::ident_pcm(1, 24, 16))];
+            let h: Vec<(usize, usize)> = v["inserts"].as_array()?.iter().map(|x| (x[0].as_u64().unwrap_or(0) as usize, x[1].as_u64().unwrap_or(0) as usize)).collect();
+            let r = match history_with_rejections(&valid, &h) {
+                Err(e) => Some((String::new(), e)),
+                Ok((bytes, acc)) => if acc > 0 { None } else { judge_raw(&bytes, &valid) },
+            };
+            Some((r.is_some(), format!("{r:?}")))
+        }
         "enc-validate" => {
             let pcm = crate::core::ivec(&v["pcm"]);
             let sig = crate::codec::sig_from(v);
